@@ -4,7 +4,7 @@ C09 driver: one verdict per trace line (see harness/wb/sdk/trace/zz_verif_c09_*_
   ratio <gen> f<bits> <nanconv> x<tid> => <decision>
   tree  <gen> <S|B> <nanconv> <sampler expr> <none|ctx> <ext tid> <ext sid> <flags> <ts> <remote>
         | <pidx> <newroot> <genTid> <genSid> <dec> <ts|P> | …
-        => <tid> <sid> <flags> <ts> <remote> <rec> <T|S> <ansDec> <ansTs> <seenTid> <ptid> <psid> <pflags> <pts> <premote> | … | exp <sid/tid/ptid/psid> …
+        => <tid> <sid> <flags> <ts> <remote> <rec> <T|S> <ansDec> <ansTs> <seenTid> <ptid> <psid> <pflags> <pts> <premote> | … | exp:S <sid/tid/ptid/psid> … | exp:B … | exp:K … | exp:Q … | exp:R …
   ids   <gen> x<stream> <ops T/S…> => x<id>,x<id>,…
   env   <gen> <x<name>|-> <hasArg> <err|f<bits>> <nanconv> => <sampler struct|-> <errclass>
 -/
@@ -166,7 +166,8 @@ def stepLine (_ : Unit) (toks : List String) : Unit × Option Verdict :=
       let kind := if isNaN bits then "nan" else if geOne bits then "ge1" else if leZero bits then "le0" else "frac"
       pure { agree := d == od, spec := spec, nontrivial := kind == "frac", branches := s!"{kind},{br}", model := toString d }
     | "tree" :: _ :: proc :: nanc :: samp :: kind :: rest => do
-      if proc != "S" && proc != "B" then none
+      -- S/B: lines of older corpora; A: all stock processor configurations side by side (always what is run)
+      if proc != "S" && proc != "B" && proc != "A" then none
       let nc ← parseNat nanc
       let e ← parseSampler samp
       let groups := splitGroups rest
@@ -175,20 +176,28 @@ def stepLine (_ : Unit) (toks : List String) : Unit × Option Verdict :=
       if kind != "none" && kind != "ctx" then none
       let nodes ← (groups.drop 1).mapM parseNode
       let ogroups := splitGroups obs
-      let oNodes ← (ogroups.take (ogroups.length - 1)).mapM parseObs
-      let oExp ← match ogroups.getLast? with
-        | some ("exp" :: es) => es.mapM parseExported
-        | _ => none
+      let np := Proc.all.length
+      if ogroups.length < np then none
+      let oNodes ← (ogroups.take (ogroups.length - np)).mapM parseObs
+      -- one group per exporter, in the fixed order of `Proc.all`, each tagged
+      let oExps ← ((ogroups.drop (ogroups.length - np)).zip Proc.all).mapM (fun (g, p) =>
+        match g with
+        | t :: es => if t == p.tag then (es.mapM parseExported).map (fun x => (p, x)) else none
+        | [] => none)
       let outs := runTree (build nc e) ext nodes []
       let mObs := outs.map obsOf
+      let agree := mObs == oNodes && oExps.all (fun (p, x) => exportedBy p outs == x)
+      -- the oracle: every exporter, whatever processor feeds it, holds exactly the sampled spans
+      let spec := Spec.treeOK e ext nodes oNodes && oExps.all (fun (_, x) => Spec.exportOK ext nodes oNodes x)
       let mExp := exportedOf outs
-      let agree := mObs == oNodes && mExp == oExp
-      let spec := Spec.treeOK e ext nodes oNodes && Spec.exportOK ext nodes oNodes oExp
-      let brs := dedup ((outs.flatMap (fun o => o.branch.splitOn ",")) ++ [if mExp.isEmpty then "noexport" else "export", "proc" ++ proc])
+      let recOnly := outs.any (fun o => o.recording && !o.ctx.sampled)
+      let brs := dedup ((outs.flatMap (fun o => o.branch.splitOn ",")) ++
+        [if mExp.isEmpty then "noexport" else "export", if recOnly then "recordonly" else "norecordonly", "proc" ++ proc])
       let nontriv := nodes.length > 0
       pure { agree := agree, spec := if spec then "ok" else "FAIL", nontrivial := nontriv,
              branches := ",".intercalate brs,
-             model := " | ".intercalate (mObs.map renderObs ++ [" ".intercalate ("exp" :: mExp.map renderExported)]) }
+             model := " | ".intercalate (mObs.map renderObs ++
+               Proc.all.map (fun p => " ".intercalate (p.tag :: (exportedBy p outs).map renderExported))) }
     | ["ids", _, stream, ops] => do
       let st ← parseHex stream
       let os ← ops.toList.mapM (fun c => if c == 'T' then some true else if c == 'S' then some false else none)
